@@ -60,7 +60,7 @@ CHECKS = {
          "Every image size up to WxW, every integer crop rectangle (all of them for sizes <= 5), all 36 algorithm variants incl. SuperSampling, alpha on and off, 13 pixel types with rotating back-ends, tag and non-premultiplied contents: the destination must be a byte copy of the region. With exactly one matching dimension the result must equal the resize of each line taken alone (no mixing along the matching dimension).",
          "W = 6 / 9; floats in the one-dimension family within 2 ulps.",
          "DESIGN.md §4 C12"),
- "C13": ("bounded-exhaustive differential enumeration over the container matrix (11 source kinds x 11 destination kinds, pairwise) x operations x pixel types x back-ends x placements x both entry points in fenced memory, isolated child processes",
+ "C13": ("bounded-exhaustive differential enumeration over the container matrix (12 source kinds x 11 destination kinds, pairwise) x operations x pixel types x back-ends x placements x both entry points in fenced memory, isolated child processes",
          "14 operations x size pairs x 8 placements x 13 pixel types x back-ends are executed through every source and destination container kind and both entry points with buffers that end at a guard page; the destination rectangle must be byte-identical to the ImageRef -> slice baseline (floats included). Rayon leg: with feature `rayon` and the real rayon, 9 band bodies x 4 types x back-ends x shapes x source kinds {TypedImageRef, owned TypedImage, cropped view of either} x 4 destination kinds x pool sizes must give the bytes of (borrowed source, plain destination, pool of one).",
          "Container kinds varied pairwise, typed kinds for 6 of 13 pixel types (compile-time bound); sizes from a fixed list. The rayon leg runs under the OS scheduler (schedule independence is C08's loom exploration).",
          "DESIGN.md §4 C13"),
